@@ -75,4 +75,15 @@ theorem getTargetBitrate_set (p : S_gcc_LeakyBucketPacer) (rate : Int) :
     gcc_LeakyBucketPacer_getTargetBitrate (gcc_LeakyBucketPacer_SetTargetBitrate p rate) =
       F64.toInt64 (F64.mul p.f (F64.ofInt rate)) := rfl
 
+/-! ## constructors of the stages in front of the estimator -/
+
+/-- ★ `newRateCalculator` stores the window it is given (the `window` parameter of Model/RateCalc.lean's `step`). -/
+theorem newRateCalculator_src (w : Int) : (gcc_newRateCalculator w).window = w := rfl
+
+/-- ★ `newArrivalGroupAccumulator`: burst thresholds of 5 ms for departure and arrival, 0 for the delay variation. -/
+theorem newArrivalGroupAccumulator_src :
+    gcc_newArrivalGroupAccumulator.interDepartureThreshold = 5000000 ∧
+    gcc_newArrivalGroupAccumulator.interArrivalThreshold = 5000000 ∧
+    gcc_newArrivalGroupAccumulator.interGroupDelayVariationTreshold = 0 := ⟨rfl, rfl, rfl⟩
+
 end Interceptor.Facts.FnGccLoss
